@@ -199,7 +199,7 @@ Section RefineStep.
     txn_rel matchf RR (ds_gen ds) (F (ds_cat ds) (ds_gen ds)) y ->
     (forall c' g' e, F (ds_cat ds) (ds_gen ds) = (c', g', inr e) -> c' = ds_cat ds) ->
     (forall tr sr, RR tr sr -> pick_doc tr after = pickS sr) ->
-    agree (let '(ds', r) := use_write ds 0 (fun cat g => project_in_txn projectf proj after (F cat g)) in
+    agree (let '(ds', r) := use_write ds 0 (fun cat g => project_in_txn projectf proj after cat (F cat g)) in
            (ds', match r with inr e => RErr e | inl rp => rp end))
           (let '(s', r) := y in
            match r with
